@@ -19,13 +19,19 @@
 package main
 
 import (
+	"encoding/hex"
 	"flag"
 	"fmt"
+	"os"
+	"os/exec"
+	"path/filepath"
 	"sort"
 	"strings"
 
 	"verif/internal/evid"
+	"verif/internal/gen"
 	"verif/internal/idl"
+	"verif/internal/refsem"
 
 	"github.com/cloudwego/thriftgo/parser"
 	"github.com/cloudwego/thriftgo/semantic"
@@ -55,11 +61,11 @@ func st(m *model, f *idl.File, cat, name string, fields ...*idl.Field) *idl.Stru
 func build(extraFile, extraCat string) *model {
 	m := &model{structs: map[string]*idl.Struct{}, svcs: map[string]*idl.Service{}, comment: map[*idl.Struct]string{}}
 	i32, str := idl.T(idl.I32), idl.T(idl.String)
-	d := &idl.File{Path: "d.thrift", Namespaces: []*idl.Namespace{{Lang: "go", Name: "t.d"}}}
+	d := &idl.File{Path: "d.thrift", Namespaces: []*idl.Namespace{{Lang: "go", Name: "t.dpk"}}}
 	dShared := st(m, d, "struct", "DShared", fld(1, "v", i32))
 	st(m, d, "struct", "DUnused", fld(1, "v", i32))
 
-	c := &idl.File{Path: "c.thrift", Includes: []*idl.Include{{Path: "d.thrift", File: d}}, Namespaces: []*idl.Namespace{{Lang: "go", Name: "t.c"}}}
+	c := &idl.File{Path: "c.thrift", Includes: []*idl.Include{{Path: "d.thrift", File: d}}, Namespaces: []*idl.Namespace{{Lang: "go", Name: "t.cpk"}}}
 	ce := &idl.Enum{Name: "CE", Values: []*idl.EnumValue{{Name: "A"}, {Name: "B"}}}
 	c.Add(ce)
 	cLeaf := st(m, c, "struct", "CLeaf", fld(1, "v", i32), fld(2, "e", idl.EnumT(ce)))
@@ -97,13 +103,13 @@ func build(extraFile, extraCat string) *model {
 	c.Add(cOther)
 	m.svcs["COther"] = cOther
 
-	b := &idl.File{Path: "b.thrift", Includes: []*idl.Include{{Path: "c.thrift", File: c}, {Path: "d.thrift", File: d}}, Namespaces: []*idl.Namespace{{Lang: "go", Name: "t.b"}}}
+	b := &idl.File{Path: "b.thrift", Includes: []*idl.Include{{Path: "c.thrift", File: c}, {Path: "d.thrift", File: d}}, Namespaces: []*idl.Namespace{{Lang: "go", Name: "t.bpk"}}}
 	bMid := st(m, b, "struct", "BMid", fld(1, "l", idl.StructT(cLeaf)), fld(2, "e", idl.ListOf(idl.StructT(cElem))), fld(3, "m", idl.MapOf(idl.StructT(cKey), idl.StructT(cVal))), fld(4, "t", idl.TypedefT(cTd)), fld(5, "s", idl.SetOf(idl.StructT(cSetElem))), fld(6, "d", idl.StructT(dShared)))
 	st(m, b, "struct", "BUnused", fld(1, "l", idl.StructT(cLeaf)))
 	bTd := &idl.Typedef{Name: "BTd", Type: idl.TypedefT(cTd)}
 	b.Add(bTd)
 
-	mainf := &idl.File{Path: "main.thrift", Includes: []*idl.Include{{Path: "b.thrift", File: b}, {Path: "c.thrift", File: c}}, Namespaces: []*idl.Namespace{{Lang: "go", Name: "t.m"}}}
+	mainf := &idl.File{Path: "main.thrift", Includes: []*idl.Include{{Path: "b.thrift", File: b}, {Path: "c.thrift", File: c}}, Namespaces: []*idl.Namespace{{Lang: "go", Name: "t.mpk"}}}
 	mNested := st(m, mainf, "struct", "MNested", fld(1, "v", i32))
 	mArg := st(m, mainf, "struct", "MArg", fld(1, "n", idl.StructT(mNested)), fld(2, "bt", idl.TypedefT(bTd)))
 	mErr := st(m, mainf, "exception", "MErr", fld(1, "m", str))
@@ -485,6 +491,7 @@ func main() {
 			}
 		}
 	}
+	level2(run, argsList, outcomes)
 	run.Set("variants", len(variants))
 	run.Set("argument_sets", len(argsList))
 	run.Set("outcome_classes", outcomes)
@@ -493,6 +500,164 @@ func main() {
 	run.Set("rule", "one evaluation = one (program variant, trimmer arguments) trimmed in-process, re-parsed, re-checked and compared with the reference closure; non-trivial iff at least one struct-like is removable in the model")
 	run.Assume("roots are the services of the main file (and their bases), every constant's type and every typedef's target in every file; enums are always kept")
 	run.Finish()
+}
+
+// level2: the trimmer binary with -r, and the generated code of the trimmed IDL.
+//
+//	(a) `trimmer -r <src> -o <dir> [-m ...] [-p false] main.thrift` writes the same IDL set as the API;
+//	(b) code generated from the trimmed IDL (API output and `-g go:trim_idl`) compiles, contains
+//	    exactly the kept struct-likes, and writes / reads every value of every kept type exactly
+//	    as the code generated from the untrimmed IDL does (and as the reference codec says).
+func level2(run *evid.Run, argsList []targs, outcomes map[string]int64) {
+	ses := gen.NewSession(run, "c16")
+	defer ses.Close()
+	m := build("", "")
+	texts := m.texts()
+	// ---- (a) the binary
+	bin := filepath.Join(ses.Scratch, "trimmer")
+	{
+		cmd := exec.Command("go", "build", "-o", bin, "./tool/trimmer")
+		cmd.Dir = "/repo"
+		cmd.Env = gen.GoEnv()
+		if out, err := cmd.CombinedOutput(); err != nil {
+			run.Fatal("building the trimmer: %v\n%s", err, out)
+		}
+	}
+	src := filepath.Join(ses.Scratch, "trim-src")
+	for rel, t := range texts {
+		os.MkdirAll(filepath.Dir(filepath.Join(src, rel)), 0o755)
+		os.WriteFile(filepath.Join(src, rel), []byte(t), 0o644)
+	}
+	trimmed := map[string]map[string]string{}
+	for _, a := range argsList {
+		api, err, pan := trimOnce(texts, "main.thrift", a)
+		if err != nil || pan != "" {
+			continue // reported by level 1
+		}
+		trimmed[a.name] = api
+		if len(a.preserved) > 0 {
+			continue // the preserved-struct list has no command-line form
+		}
+		outDir := filepath.Join(ses.Scratch, "trim-out-"+a.name)
+		args := []string{"-r", src, "-o", outDir}
+		for _, mm := range a.methods {
+			args = append(args, "-m", mm)
+		}
+		if a.preserve != nil && !*a.preserve {
+			args = append(args, "-p", "false")
+		}
+		args = append(args, filepath.Join(src, "main.thrift"))
+		cmd := exec.Command(bin, args...)
+		cmd.Dir = ses.Scratch
+		outb, err := cmd.CombinedOutput()
+		run.Eval("binary|"+a.name, true)
+		rp := map[string]any{"args": args, "idl": texts}
+		if err != nil {
+			run.Violate(evid.Violation{Class: "binary-failed:" + a.name, What: fmt.Sprintf("trimmer %v: %v: %s", args, err, firstLine(string(outb))), Replay: rp})
+			continue
+		}
+		got := map[string]string{}
+		filepath.Walk(outDir, func(p string, info os.FileInfo, err error) error {
+			if err == nil && !info.IsDir() {
+				b, _ := os.ReadFile(p)
+				rel, _ := filepath.Rel(outDir, p)
+				got[rel] = string(b)
+			}
+			return nil
+		})
+		oa, e1 := observe(api, "main.thrift")
+		ob, e2 := observe(got, "main.thrift")
+		if e1 != nil {
+			continue
+		}
+		if e2 != nil {
+			run.Violate(evid.Violation{Class: "binary-output-invalid:" + a.name, What: "the IDL set written by the trimmer binary is not valid: " + firstLine(e2.Error()), Replay: rp})
+			continue
+		}
+		if fmt.Sprint(oa) != fmt.Sprint(ob) {
+			run.Violate(evid.Violation{Class: "binary-differs-from-api:" + a.name, What: fmt.Sprintf("trimmer binary keeps %v / %v, the API %v / %v", ob.structs, ob.services, oa.structs, oa.services), Replay: rp})
+			continue
+		}
+		outcomes["binary-same-as-api"]++
+	}
+	// ---- (b) generated code
+	prog := &idl.Program{Files: m.files}
+	orig := ses.Batch.Add(&gen.Item{Key: "orig", Prog: prog, Texts: texts, Recurse: true})
+	type titem struct {
+		it   *gen.Item
+		args targs
+		name string
+	}
+	var tis []titem
+	for _, a := range argsList {
+		if t, ok := trimmed[a.name]; ok && (a.name == "no-filter" || a.name == "m-exact" || a.name == "preserve-off" || a.name == "m-base-method") {
+			tis = append(tis, titem{ses.Batch.Add(&gen.Item{Key: "t-" + a.name, Prog: prog, Texts: t, Recurse: true}), a, "api:" + a.name})
+		}
+	}
+	tis = append(tis, titem{ses.Batch.Add(&gen.Item{Key: "trimidl", Prog: prog, Texts: texts, Opts: []string{"trim_idl"}, Recurse: true}), argsList[0], "option:trim_idl"})
+	ses.Start("orig")
+	for _, ti := range tis {
+		run.Eval("generated|"+ti.name, true)
+		rp := map[string]any{"trimmed_by": ti.name, "idl": texts}
+		if ti.it.Exit != 0 {
+			run.Violate(evid.Violation{Class: "trimmed-idl-rejected:" + ti.name, What: fmt.Sprintf("thriftgo rejects the trimmed IDL (%s): %s", ti.name, firstLine(ti.it.Stderr+ti.it.Stdout)), Replay: rp})
+			continue
+		}
+		if ti.it.BuildErr != "" {
+			run.Violate(evid.Violation{Class: "trimmed-code-does-not-compile:" + ti.name, What: fmt.Sprintf("code generated from the trimmed IDL (%s) does not compile: %s", ti.name, firstLine(ti.it.BuildErr)), Replay: rp})
+			continue
+		}
+		k := closure(m, ti.args)
+		var want, got []string
+		for n, st := range m.structs {
+			if k.structs[st] {
+				want = append(want, n)
+			}
+		}
+		for n := range ti.it.Types {
+			if _, isModel := m.structs[n]; isModel {
+				got = append(got, n)
+			}
+		}
+		sort.Strings(want)
+		sort.Strings(got)
+		if strings.Join(want, ",") != strings.Join(got, ",") {
+			missing, extra := diffSets(want, got)
+			run.Violate(evid.Violation{Class: "generated-types-differ:" + ti.name, What: fmt.Sprintf("%s: generated struct-likes: missing %v, not needed %v", ti.name, missing, extra), Replay: rp})
+			continue
+		}
+		// wire behaviour of every kept type
+		var reqsO, reqsT []*gen.Req
+		type vv struct {
+			st  *idl.Struct
+			v   *refsem.Val
+			ref []byte
+		}
+		var vs []vv
+		for _, n := range want {
+			st := m.structs[n]
+			for _, v := range refsem.StructDomain(st, 1, false) {
+				ref := refsem.EncodeStruct(nil, st.Fields, refsem.Complete(st, v))
+				vs = append(vs, vv{st, v, ref})
+				reqsO = append(reqsO, &gen.Req{Type: gen.RegKey(orig, n), Op: "readwrite", Bytes: hex.EncodeToString(ref)})
+				reqsT = append(reqsT, &gen.Req{Type: gen.RegKey(ti.it, n), Op: "readwrite", Bytes: hex.EncodeToString(ref)})
+			}
+		}
+		ro, rt := ses.Do(reqsO), ses.Do(reqsT)
+		okAll := true
+		for i := range vs {
+			run.Eval(fmt.Sprintf("wire|%s|%s|%d", ti.name, vs[i].st.Name, i), len(vs[i].ref) > 1)
+			a, b := ro[i], rt[i]
+			if a.Err != b.Err || a.Panic != b.Panic || a.Bytes != b.Bytes || (a.Val != nil && b.Val != nil && refsem.SameStruct(vs[i].st, a.Val, b.Val) != "") {
+				run.Violate(evid.Violation{Class: "wire-behaviour-differs:" + ti.name + ":" + vs[i].st.Name, What: fmt.Sprintf("%s: %s reads+rewrites %x as %s (%s%s) from the trimmed IDL, %s (%s%s) from the original", ti.name, vs[i].st.Name, vs[i].ref, b.Bytes, b.Err, b.Panic, a.Bytes, a.Err, a.Panic), Replay: rp})
+				okAll = false
+				break
+			}
+		}
+		if okAll {
+			outcomes["generated-same-wire:"+ti.name]++
+		}
+	}
 }
 
 func has(ch []string, n string) bool {
